@@ -7,6 +7,7 @@ var Registry = map[string]func(tier string) int{
 	"C03": C03,
 	"C04": C04,
 	"C05": C05,
+	"C06": C06,
 	"C08": C08,
 	"C09": C09,
 	"C10": C10,
